@@ -1,6 +1,14 @@
 package oxsim
 
-import "testing/synctest"
+import (
+	"context"
+	"testing/synctest"
+	"time"
+)
 
 // synctestWait blocks until every other goroutine of the bubble is durably blocked.
 func synctestWait() { synctest.Wait() }
+
+func ctxTimeout(d time.Duration) (context.Context, context.CancelFunc) {
+	return context.WithTimeout(context.Background(), d)
+}
